@@ -109,7 +109,8 @@ def check_case(prog, info, v, ctx, x, driver, part, record=True):
     if tobs != ref:
         raise HarnessError(f"twin differs from plain program: {P.first_difference(ref, tobs)}\n{prog.src}")
     exp = expected_stream(trace, v, ctx)
-    obs, streams = C.probe_run(prog, info, [selector(v, ctx)], x, driver, part)
+    late = []
+    obs, streams = C.probe_run(prog, info, [selector(v, ctx)], x, driver, part, late_raw=late)
     if record:
         part["cases"] += 1
         part["evaluations"] += 1
@@ -119,7 +120,19 @@ def check_case(prog, info, v, ctx, x, driver, part, record=True):
         part["outcomes"][f"events={min(len(exp), 4)}"] += 1
     if streams is None:
         return ("activation", "none", f"activation failed: {obs[1]}: {obs[2]}")
-    return compare(exp, streams[0])
+    bad = compare(exp, streams[0])
+    if bad is None:
+        # an event is a record of the moment it was delivered: a raw event read after the call still
+        # shows the values of that moment (compared for immutable values only - events carry live objects)
+        got = streams[0]
+        if len(late) != len(got):
+            return "raw-stream-differs", "none", f"the raw probe on the same selector received {len(late)} events, the plain one {len(got)}"
+        for i, (now, after) in enumerate(zip(got, late)):
+            for k, val in now.items():
+                if (val is None or isinstance(val, (bool, int, float, str))) and after.get(k) != val:
+                    return "event-changed-after-delivery", "none", (
+                        f"raw event #{i} read after the call shows {k}={after.get(k)!r}; when it was delivered {k} was {val!r}")
+    return bad
 
 
 def check_program(prog, tier, part, setname="gen"):
